@@ -1,11 +1,78 @@
-(** C02 - live subscriptions converge.  Model: Server/Model.v + DiffMerge/Model.v. *)
-From Coq Require Import List String.
-From Thunder Require Import Lib.Json DiffMerge.Model Server.Model Server.Proofs.
+(** C02 - live subscriptions converge: client state equals the current query result.
+
+    Model: Server/Model.v (the connection: one rerunner per subscription with its `previous` value, the
+    envelopes it writes) + DiffMerge/Model.v (diff.Diff, client/src/merge.ts, diff.StripKey).
+    [client_state rid s] folds, from nothing, every update message subscription [rid] sent in the history
+    leading to [s] with merge.ts; [r_prev] is `previous`, the result of the subscription's last successful
+    computation ([run_stores_result]).  [good_label]: successful computations return well-formed JSON
+    objects (Execute returns a map; unique keys; scalar __key).  [jeq]: equal as JSON values, objects read
+    as finite maps (Props/C03.v, [jeq_canonical]).
+
+    That the last computation read the final data - so that "the result of the last run" is "the result of
+    the query on the final data" - is the quiescence theorem of the reactive package (C04); on the
+    implementation it is checked by the harness on every run (version stamp on every resolver read, fresh
+    Execute at every quiescent point).  The convergence theorem is proved in Server/ProofsConv.v inside a
+    Section whose only hypothesis is the round trip of C03; it is instantiated here with C03's proof. *)
+From Coq Require Import List ZArith String Bool Arith.
+From Thunder Require Import Lib.Json DiffMerge.Model Server.Model Server.Spec Server.Proofs Server.ProofsLife
+     Server.ProofsConv Server.Witness Server.ProofsC02.
 Import ListNotations.
 
-(** Updates of different subscriptions never mix: what a computation writes carries the id its
-    rerunner was created for. *)
-Theorem run_writes_own_id : forall s rid r o e,
-  In e (st_out (do_run s rid r o)) -> In e (st_out s) \/ (e_id e = r_sub r /\ e_src e = Some rid).
-Proof. exact Proofs.run_writes_own_id. Qed.
-Print Assumptions run_writes_own_id.
+(** Convergence.  After any history, the client of a subscription that has completed at least one
+    computation holds the key-stripped result of the last successful one. *)
+Theorem convergence : forall cfg h s rid r,
+  forallb good_label h = true -> run cfg init h = Some s ->
+  st_runners s rid = Some r -> r_kind r = KSub -> r_initial r = false ->
+  jeq (client_state rid s) (strip (r_prev r)).
+Proof. exact ProofsC02.convergence_l. Qed.
+Print Assumptions convergence.
+
+(** [r_prev] is what it is said to be. *)
+Theorem run_stores_result : forall cfg s rid r v s',
+  st_runners s rid = Some r -> r_kind r = KSub -> step cfg s (LRun rid (OOk v)) = Some s' ->
+  exists r', st_runners s' rid = Some r' /\ r_prev r' = v /\ r_initial r' = false /\ r_kind r' = KSub.
+Proof. exact ProofsC02.run_stores_result_l. Qed.
+Print Assumptions run_stores_result.
+
+(** The first envelope a subscription writes is a full update [[v]] (or the error that ends it). *)
+Theorem first_message_full : forall cfg h s rid r,
+  forallb good_label h = true -> run cfg init h = Some s ->
+  st_runners s rid = Some r -> r_kind r = KSub ->
+  match writes_of rid s with [] => True | e :: _ => is_full e \/ e_type e = EError end.
+Proof. exact ProofsC02.first_message_full_l. Qed.
+Print Assumptions first_message_full.
+
+(** Updates of different subscriptions never mix: every envelope written by a computation carries the id
+    its rerunner was created for. *)
+Theorem updates_carry_own_id : forall cfg h s e rid,
+  run cfg init h = Some s -> In e (st_out s) -> e_src e = Some rid ->
+  exists r, st_runners s rid = Some r /\ e_id e = r_sub r.
+Proof. exact ProofsC02.updates_carry_own_id_l. Qed.
+Print Assumptions updates_carry_own_id.
+
+(** After the unsubscribe for [id] was processed no update for [id] is written, until a subscribe or mutate
+    message with that id arrives. *)
+Theorem no_update_after_unsubscribe : forall cfg s id s1 h s2,
+  c_fix_mutdup cfg = true -> reachable cfg s -> step cfg s (LUnsubscribe id) = Some s1 ->
+  forallb (fun l => negb (accepts_for id l)) h = true -> run cfg s1 h = Some s2 ->
+  forall e, In e (st_out s2) -> e_id e = id -> e_type e = EUpdate -> In e (st_out s1).
+Proof. exact ProofsC02.no_update_after_unsubscribe_l. Qed.
+Print Assumptions no_update_after_unsubscribe.
+
+(** F13: with the original handleMutate (no duplicate-id check) an update for id 0 is written after the
+    unsubscribe for 0 was processed. *)
+Theorem no_update_after_unsubscribe_refuted :
+  exists s s1 s2 e, run (only_mutdup_missing 3) init h_f13_c02 = Some s
+    /\ step (only_mutdup_missing 3) s (LUnsubscribe 0) = Some s1
+    /\ step (only_mutdup_missing 3) s1 (LRun 0 (OOk v2)) = Some s2
+    /\ In e (st_out s2) /\ e_id e = 0 /\ e_type e = EUpdate /\ ~ In e (st_out s1).
+Proof. exact ProofsC02.no_update_after_unsubscribe_refuted_l. Qed.
+Print Assumptions no_update_after_unsubscribe_refuted.
+
+(** Non-vacuity: a keyed list that is reordered and changed, a new field, a run without change; two
+    updates are sent and the client ends with the stripped last result. *)
+Example convergence_example :
+  forallb good_label h_conv = true /\
+  exists s, run (repaired 3) init h_conv = Some s /\ List.length (updates_of 0 s) = 2
+            /\ norm (client_state 0 s) = JObj [("a", JNum 3); ("items", JArr [JObj [("n", JNum 7)]; JObj [("n", JNum 5)]])].
+Proof. exact ProofsC02.conv_example_l. Qed.
